@@ -64,13 +64,23 @@ Theorem c14_pruned : forall ops p, p <> [] -> has_path (root (run ops)) p = true
 Proof. intros ops. destruct (inv_run ops) as [R _]. exact (rep_pruned _ _ R). Qed.
 Print Assumptions c14_pruned.
 
+(* A dictionary of literal words: no CURRENT member contains '*'.  What was added and removed
+   before does not matter (removal prunes every trace: c14_pruned) — in particular a history
+   that only ever adds literal words (literal_ops) qualifies. *)
+Definition literal_dict (ops : list op) : Prop :=
+  forall w, terminal (root (run ops)) w = true -> ~ In star w.
+
+Theorem c14_literal_history_gives_literal_dict : forall ops, literal_ops ops -> literal_dict ops.
+Proof. intros ops Hl w Hw. apply (literal_run ops Hl w). apply terminal_has_path. exact Hw. Qed.
+Print Assumptions c14_literal_history_gives_literal_dict.
+
 (* "For dictionaries of literal words a text is reported as containing a match if and only
-   if some dictionary word occurs in it" — literal_ops: no added word contains '*' *)
-Theorem c14_contains_iff : forall ops s, literal_ops ops ->
+   if some dictionary word occurs in it" *)
+Theorem c14_contains_iff : forall ops s, literal_dict ops ->
   contains_text (run ops) s = true <->
   exists w, terminal (root (run ops)) w = true /\ occurs w s.
 Proof.
-  intros ops s Hl. rewrite (contains_literal _ s (literal_run ops Hl) (root_not_end ops)).
+  intros ops s Hl. rewrite (contains_literal _ s (literal_of_words ops Hl) (root_not_end ops)).
   split; intros [w H]; exists w; [tauto|].
   destruct H as [H1 H2]. split; [assumption|]. split; [|assumption].
   intros ->. rewrite terminal_nil, root_not_end in H1. discriminate.
@@ -84,46 +94,48 @@ Print Assumptions c14_filter_length.
 
 (* "... and every character outside a match": a position either keeps its character or
    carries the mask and lies inside an occurrence of a dictionary word in the text *)
-Theorem c14_filter_outside_kept : forall ops s i, literal_ops ops -> (i < length s)%nat ->
+Theorem c14_filter_outside_kept : forall ops s i, literal_dict ops -> (i < length s)%nat ->
   nth i (filter_text (run ops) s) 0 = nth i s 0 \/
   (nth i (filter_text (run ops) s) 0 = mask /\
    exists a w b, s = a ++ w ++ b /\ terminal (root (run ops)) w = true /\
                  (length a <= i < length a + length w)%nat).
-Proof. intros ops s i Hl Hi. apply filter_outside_kept; [apply literal_run, Hl | apply root_not_end | exact Hi]. Qed.
+Proof. intros ops s i Hl Hi. apply filter_outside_kept; [apply literal_of_words, Hl | apply root_not_end | exact Hi]. Qed.
 Print Assumptions c14_filter_outside_kept.
 
 (* "... while leaving no dictionary word in the result".  The mask is the character '*',
    so this can only be claimed for words without '*': a literal dictionary (the statement's
    own premise).  With the word "*" in the dictionary the filtered text "*" still contains
    it — Example c14_filter_clean_needs_literal below. *)
-Theorem c14_filter_clean : forall ops s w, literal_ops ops ->
+Theorem c14_filter_clean : forall ops s w, literal_dict ops ->
   terminal (root (run ops)) w = true -> ~ occurs w (filter_text (run ops) s).
 Proof.
-  intros ops s w Hl Hw. apply filter_clean; [apply literal_run, Hl | apply root_not_end | exact Hw|].
-  apply (literal_run ops Hl w). apply terminal_has_path. exact Hw.
+  intros ops s w Hl Hw. apply filter_clean; [apply literal_of_words, Hl | apply root_not_end | exact Hw|].
+  apply (Hl w Hw).
 Qed.
 Print Assumptions c14_filter_clean.
 
 (* ExactMatch (first-terminal matching from position 0): on a literal dictionary it accepts
    exactly the members none of whose proper non-empty prefixes is a member *)
-Theorem c14_exact_match : forall ops s, literal_ops ops ->
+Theorem c14_exact_match : forall ops s, literal_dict ops ->
   exact_match (run ops) s = true <->
   terminal (root (run ops)) s = true /\
   forall w b, w <> [] -> b <> [] -> s = w ++ b -> terminal (root (run ops)) w = false.
-Proof. intros ops s Hl. apply exact_match_literal; [apply literal_run, Hl | apply root_not_end]. Qed.
+Proof. intros ops s Hl. apply exact_match_literal; [apply literal_of_words, Hl | apply root_not_end]. Qed.
 Print Assumptions c14_exact_match.
 
-(* on literal dictionaries Contains, Filter and ExactMatch are functions of the word set:
-   two histories with the same words answer every text alike *)
-Theorem c14_matching_depends_only_on_words : forall ops1 ops2, literal_ops ops1 -> literal_ops ops2 ->
+(* "removing a word ... never changes how any other word matches", at full strength: on EVERY
+   dictionary (wildcards, competing or not, included) Contains, Filter and ExactMatch are
+   functions of the word set — two histories with the same members answer every text alike;
+   so after a removal the answers are those of the dictionary without that word, however the
+   remaining words got there.  The queries themselves are functions of the dictionary in the
+   model (they return no new state); on the code this is observed by membership probes and
+   WordsCount after queries. *)
+Theorem c14_matching_depends_only_on_words : forall ops1 ops2,
   (forall w, terminal (root (run ops1)) w = terminal (root (run ops2)) w) ->
   forall s, contains_text (run ops1) s = contains_text (run ops2) s /\
             filter_text (run ops1) s = filter_text (run ops2) s /\
             exact_match (run ops1) s = exact_match (run ops2) s.
-Proof.
-  intros ops1 ops2 H1 H2. apply matching_depends_on_words;
-    [apply literal_run, H1 | apply root_not_end | apply literal_run, H2 | apply root_not_end].
-Qed.
+Proof. exact matching_depends_on_words_general. Qed.
 Print Assumptions c14_matching_depends_only_on_words.
 
 (* What the matcher does on ANY dictionary — wildcard and literal branches may compete.
@@ -145,6 +157,13 @@ Proof.
   - rewrite (starts_loop_none_iff _ u pos Hpos). apply mlen_none_sem, root_not_end.
 Qed.
 Print Assumptions c14_match_semantics.
+
+(* the statement `if node.isEnd { return pos }` after the loop of starts() is dead code on
+   every reachable dictionary (the harness never executes it either: bin/harness-cover) *)
+Theorem c14_after_loop_test_dead : forall ops u pos,
+  starts_loop (root (run ops)) u pos = starts_loop_nocheck (root (run ops)) u pos.
+Proof. intros ops u pos. apply after_loop_test_dead, root_not_end. Qed.
+Print Assumptions c14_after_loop_test_dead.
 
 (* the path the matcher follows is unique *)
 Theorem c14_followed_path_unique : forall ops u w1 w2,
@@ -259,6 +278,33 @@ Proof.
   - intros w Hin. cbn in Hin. unfold star. cbn.
     repeat (destruct Hin as [Hin|Hin]; [inversion Hin; subst; cbn; intuition discriminate|]). contradiction.
   - vm_compute. repeat split.
+Qed.
+
+(* a literal dictionary whose history is not literal: "*a" came and went *)
+Definition ex_mixed : list op := [AddWord [42; 97]; AddWord [97; 98]; RemoveWord [42; 97]].
+Example c14_example_literal_dict :
+  literal_dict ex_mixed /\ ~ literal_ops ex_mixed /\
+  contains_text (run ex_mixed) [120; 97; 98] = true /\ contains_text (run ex_mixed) [120; 97] = false.
+Proof.
+  split; [|split; [|vm_compute; split; reflexivity]].
+  - intros w Hw. destruct (inv_run ex_mixed) as [R _]. apply (rep_terminal _ _ R) in Hw.
+    change (spec_run ex_mixed) with [[97; 98]] in Hw. destruct Hw as [<-|[]].
+    unfold star. cbn. intuition discriminate.
+  - intros H. apply (H [42; 97]); [left; reflexivity | left; reflexivity].
+Qed.
+
+(* two different histories, same members (a wildcard one): every text is answered alike *)
+Example c14_example_same_words :
+  let o1 := [AddWord [97; 42]; AddWord [98]; AddWord [97; 98]; RemoveWord [98]] in
+  let o2 := [AddWord [97; 98]; AddWord [97; 42]] in
+  (forall w, terminal (root (run o1)) w = terminal (root (run o2)) w) /\
+  filter_text (run o1) [97; 98; 97; 99] = [42; 42; 42; 42].
+Proof.
+  cbv zeta. split; [|reflexivity]. intros w.
+  rewrite !model_probe.
+  change (spec_run [AddWord [97; 42]; AddWord [98]; AddWord [97; 98]; RemoveWord [98]]) with [[97; 98]; [97; 42]].
+  change (spec_run [AddWord [97; 98]; AddWord [97; 42]]) with [[97; 42]; [97; 98]].
+  unfold wmem. cbn [existsb]. destruct (zl_eqb w [97; 98]), (zl_eqb w [97; 42]); reflexivity.
 Qed.
 
 (* a non-competing wildcard dictionary: {a*, b*c} *)
